@@ -96,6 +96,18 @@ PROPS["C13"] = {
     "assumptions": COMMON_ASSUME + ["partial: structure-aware mutation of documents (element deletion/duplication/renaming, namespace swaps, attribute corruption, random bytes) is input-space search outside this technique; only stream cuts, dependency faults, header value sets and a fixed list of malformed documents are decided", "how a backend failure maps to a status is not part of the statement: counted, not judged"],
 }
 
+PROPS["C14"] = {
+    "engine": "wdsim", "level": "fault_enumeration",
+    "quick": {"max_runs": 100000000, "budget_s": 40, "recheck": 25},
+    "thorough": {"max_runs": 1000000000, "budget_s": 900, "recheck": 50},
+    "rule": "one evaluation = one seeded run: 3-14 calls of the public client methods (webdav: FindCurrentUserPrincipal, Stat, ReadDir, Open, Create/Write/Close, RemoveAll, Mkdir, Copy, Move; caldav: FindCalendarHomeSet, FindCalendars, QueryCalendar, MultiGetCalendar, GetCalendarObject, PutCalendarObject; carddav: HasSupport, FindAddressBookHomeSet, FindAddressBooks, QueryAddressBook, MultiGetAddressBook, GetAddressObject, PutAddressObject, SyncCollection) against the real handlers over recording backends (a scripted RFC 6578 responder for sync-collection), while the transport does one of: replace the status by a code of 100-599 with seven body/content-type kinds (empty, text, long text, DAV:error, garbage XML, HTML, original body); cut the response body at an offset with a clean EOF or a read error; fail the round trip before or after the request was applied; stall until a cancellation on the fake clock; rewrite the real multi-status so that one resource (response status) or one property (own propstat, with or without a value left in it) fails with 403/404/423/424/500/507/1xx/3xx; drop or falsify Content-Type; make the j-th backend call fail. Profile client-every-offset-and-status enumerates every cut offset 0..1500 or every status 100..599 for one call. Oracle: returns (no panic, no bubble deadlock); error iff the delivered answer is not 2xx / not 207 where required / cut inside the document / carries a failed member; the error carries the status (errors.As *internal.HTTPError), the DAV:error condition, or wraps the transport/context error; a failed member never shows up as data (sync-collection: 404 -> deleted). Non-trivial and distinct = distinct (client method, fault class, delivered status class / cut position class / rewritten status, class of the real answer).",
+    "real_vs_stub": {
+        "real": ["webdav.Client, caldav.Client, carddav.Client and internal.Client incl. every response decoder", "net/http.Client (redirects) above the simulated RoundTripper", "the real handlers producing the undisturbed answers"],
+        "stub": ["the wire (in-process RoundTripper that applies the fault plan)", "storage doubles", "the sync-collection responder"],
+    },
+    "assumptions": COMMON_ASSUME + ["partial: arbitrary mutation of multi-status documents is not claimed; only status placement on a response or a propstat of real documents, cuts, and whole-response replacement are decided", "for a status replaced by another 2xx code only the 207 rule is judged (what else the body must look like is the server's business)"],
+}
+
 MANIFEST_TEXT = {
     "C01": {
         "technique": "deterministic simulation: seeded multi-client request histories against the real handler and LocalFileSystem on a simulated disk seam, refinement-checked step by step against an executable RFC 4918 resource-tree model",
@@ -138,6 +150,12 @@ MANIFEST_TEXT = {
         "level_text": "Fault enumeration over the stream and dependency seams of every body-carrying request kind; every-offset enumeration for documents up to 2 KiB. Partial by design: arbitrary structure-aware mutation of documents is not a schedule or a fault and is not claimed.",
         "design_ref": "DESIGN.md section 3 / C13",
         "level_note": "Trusted: the backend doubles; 'document end' offsets of the templates. The C04 clause about conditional headers reaching CalDAV/CardDAV backends unaltered is checked on the same exchanges (profile dav-passthrough of C04).",
+    },
+    "C14": {
+        "technique": "deterministic simulation with fault injection at the transport seam: every public client method against the real handlers while the response is replaced (every status 100-599 x body kinds), cut at every offset, dropped, stalled until a fake-clock cancellation, or has one member of its multi-status failed",
+        "level_text": "Fault enumeration over the response stream: every status code and every cut offset for sampled calls (exhaustive sub-profile), seeded samples of all other fault placements across all 23 client methods. 'Never hangs' is decided by bubble deadlock detection, cancellation by the fake clock.",
+        "design_ref": "DESIGN.md section 3 / C14",
+        "level_note": "Trusted: the RoundTripper stub, the independent multi-status reader used to decide which members failed. Partial: no arbitrary document mutation.",
     },
     "C17": {
         "technique": "deterministic simulation: every response of seeded histories, including histories with OS error kinds injected at the disk seam, scanned for the host path",
